@@ -15,7 +15,7 @@ import zorgapi as Z
 PROP = "C08"
 MODULES = ["ZorgVerif.Props.C08"]
 TODAY = (2024, 6, 15)
-LEXA = list("abcoxP0123459 -#@%+[](){}:;,.!?'\"=&*~<>_/\\|^$`\n") + ["[[", "]]", "((", "))", "[#", "[^", "[@", "::", "  * ", "\n\n", "--------", "================", "#" * 32, "=" * 24, "+" * 16, "240510#0K", "2024-02-30", "241399", "https://", "k::v", "[a::b::c]"]
+LEXA = list("abcoxP0123459 -#@%+[](){}:;,.!?'\"=&*~<>_/\\|^$`\n") + ["[[", "]]", "((", "))", "[#", "[^", "[@", "::", "  * ", "\n\n", "--------", "================", "#" * 32, "=" * 24, "+" * 16, "240510#0K", "2024-02-30", "241399", "230229", "250229#01", "https://", "k::v", "[a::b::c]"]
 
 
 def damage(rng, text: str) -> str:
@@ -220,7 +220,9 @@ def body(ctx: C.Ctx, proof: C.ProofStatus) -> C.Result:
     base.mkdir(parents=True)
     texts = [("", "empty_file"), ("- foo\n", "item_without_header"), ("# T", "header_without_newline"), ("# T\n\n- zz [#} yy\n", "kf_e"),
              ("# T\n\n- x:: y  *   * z\n", "bullet"), ("# T\n\n- a:: b\n  * 240101\n", "bullet"), ("# T 2024-02-30\n\n- 241399 foo\n- 240230#00 foo\n", "dates"),
-             ("# T\n\n- foo [a::b::c] bar\n", "inline"), ("# T\n\n- ok\n\n- zz [@+ [^# [#o\n", "brackets")]
+             ("# T\n\n- foo [a::b::c] bar\n", "inline"),
+             # impossible calendar days in every position that is parsed as a date: 29 February of non-leap years, day 0, month 0 / 13
+             ("# T 2023-02-29\n\n- 230229 counted items\no P2 250229#01 zid of a non-leap day\n- 210229 250101#aa stamp\n- 240229 real leap day\n- 000229#00 leap day of 2000\n- 240100 240001 241301 x\n", "dates"), ("# T\n\n- ok\n\n- zz [@+ [^# [#o\n", "brackets")]
     texts += [gen_text(rng) for _ in range(n)]
     with mp.get_context("fork").Pool(14) as pool:
         outs = sorted(pool.imap_unordered(_compile_spy, [(i, t, str(base)) for i, (t, _) in enumerate(texts)], chunksize=16))
